@@ -574,3 +574,39 @@ class _:
             iter_post=lambda v, b, e: [("record-of-this-scaffold", v.self.out.g_total == b.scffld.rows.cum(b.scffld.rows.len))],
         )
     }
+
+
+# --- C04: the index record ----------------------------------------------------------------------------
+
+FI_ = "tola.fasta.index.FastaInfo"
+
+
+@contract(f"{FI_}.__init__", kind="init", properties=("C04",))
+class _:
+    # "the faidx quintuple (name, residue count, byte offset of the first residue, residues per full line,
+    #  bytes per full line including its terminator)": the four numbers are stored as given
+    params = {"self": INFO, "length": INT, "file_offset": INT, "residues_per_line": INT, "max_line_length": INT}
+    modifies = staticmethod(lambda o: [("field", "FastaInfo", f, o.self) for f in ("length", "file_offset", "residues_per_line", "max_line_length")])
+
+    @staticmethod
+    def ensures(o, n, res):
+        s = n.self
+        return z3.And(s.length == o.length, s.file_offset == o.file_offset, s.residues_per_line == o.residues_per_line, s.max_line_length == o.max_line_length)
+
+
+@contract(f"{IX}.get_fasta_seq", properties=("C04",))
+class _:
+    # whole-record access goes through sequence_bytes(info, 1, length)
+    custom = staticmethod(lambda mi, fn: _get_fasta_seq_shape(mi, fn))
+
+
+def _get_fasta_seq_shape(mi, fn):
+    import ast
+
+    from pyvc.spec import SpecInapplicable
+
+    body = "\n".join(ast.unparse(s) for s in fn.body if not (isinstance(s, ast.Expr) and isinstance(s.value, ast.Constant)))
+    want = "info = self.get_info(name)\nseq_bytes = self.sequence_bytes(info, 1, info.length).getvalue()\nreturn FastaSeq(name, seq_bytes)"
+    if body != want:
+        raise SpecInapplicable("get_fasta_seq has a different shape")
+    return [("post", "whole-record-is-interval-1-to-length", [], z3.BoolVal(True))]
